@@ -461,6 +461,10 @@ func (c *checker) probe(viol func(string, map[string]any), what, tag string, cn 
 		if a.Equal(&chain.Sys2) || a.Equal(&chain.Sys1) {
 			slots = []felt.Felt{chain.FV(7), chain.Slot0}
 		}
+		if tag == "legacy" && i >= 5 {
+			// COST (see functional): on the legacy backend the per-round contracts D(s,i) are probed for one slot only
+			slots = slots[:1]
+		}
 		for _, sl := range slots {
 			sl := sl
 			got, err := sr.ContractStorage(&a, &sl)
